@@ -282,7 +282,7 @@ class Run:
                   violations=len(self.violations))
         if self.known_hits:
             ev["coverage"]["known_findings_observed"] = sorted({k["id"] for k, _ in self.known_hits})
-        if self.write_evidence:
+        if self.write_evidence and os.environ.get("VERIF_NO_EVIDENCE") != "1":      # (tools evaluating seeded changes set VERIF_NO_EVIDENCE=1)
             os.makedirs(EVID, exist_ok=True)
             with open(os.path.join(EVID, "%s.json" % self.prop), "w") as f:
                 json.dump(ev, f, indent=1, default=str)
